@@ -17,10 +17,31 @@ open Gen.Conn (Fsm)
 
 /-- With `sasl.required`, in every reachable state: the FSM being past the negotiation
 (INIT_WAITING_MOTD, INIT_MOTD, CONNECTED, CONNECTED_SASL), `afterConnect` being set, or a `CAP END` having
-been sent in this epoch, each implies that the server confirmed SASL success (903) in this epoch. -/
+been sent in this epoch, each implies that in this epoch the server confirmed SASL success (903) — and that
+this 903 was honoured inside a SASL exchange: `sasl` had been acknowledged (ghost `saslAcked`). -/
 theorem sasl_required_safe (cfg : Cfg) (base s : St) (hr : cfg.required = true) (r : Reach cfg base s) :
-    (pastNegotiation s.fsm = true ∨ s.afterConnect = true ∨ 0 < s.endCount) → s.saslAuth = true :=
-  (absInv_req cfg).reach r hr
+    (pastNegotiation s.fsm = true ∨ s.afterConnect = true ∨ 0 < s.endCount) →
+      s.saslAuth = true ∧ s.saslAcked = true := fun h =>
+  have ha := (absInv_req cfg).reach r hr h
+  ⟨ha, ((absInv_sasl cfg).reach r).2.2.2 ha⟩
+
+/-- `sasl_authenticated` is raised only by the handler of 903, and only when the FSM was in INIT_SASL /
+CONNECTED_SASL when the 903 arrived: a 903 outside a SASL exchange (unsolicited, before CAP LS, after the
+exchange ended …) is not honoured — for every state, configuration and message. -/
+theorem auth_only_in_exchange (cfg : Cfg) (s : St) (m : Msg) (h0 : s.saslAuth = false)
+    (h1 : (step cfg s m).st.saslAuth = true) : dispatch m = .n903 ∧ isSaslState s.fsm = true := by
+  have hm := ref_feedMsg (cfg := cfg) m s
+  have hb : (α (feedMsg cfg m s).st).saslAuth = true := h1
+  have ha : (α s).saslAuth = false := h0
+  by_cases hp : handlerKinds (dispatch m) .authPerm = true
+  · have hd : dispatch m = .n903 := by revert hp; cases dispatch m <;> simp [handlerKinds]
+    refine ⟨hd, ?_⟩
+    have hk : handlerKinds (dispatch m) .startSasl = false := by rw [hd]; rfl
+    rcases auth_moves hk hm hb with h | ⟨h, _⟩
+    · rw [ha] at h; cases h
+    · exact h
+  · have := noAuth_moves (by simpa using hp) hm hb
+    rw [ha] at this; cases this
 
 /-- the configuration of the C08 examples with `sasl.required` -/
 def exReq : Cfg := { exCfg with required := true }
@@ -32,6 +53,10 @@ def exR4 : St := (step exReq exR3 ex903).st
 theorem exR4_reach : Reach exReq {} exR4 :=
   .op (.msg ex903) (.op (.msg exAuth) (.op (.msg exAck) (.op (.msg exLs) .start)))
 example : exReq.required = true ∧ pastNegotiation exR4.fsm = true ∧ exR4.saslAuth = true := by decide
+example : exR3.saslAuth = false ∧ (step exReq exR3 ex903).st.saslAuth = true := by decide
+/-- an unsolicited 903 right after connecting changes nothing -/
+example : (step exReq exR0 ex903).st.saslAuth = false ∧ (step exReq exR0 ex903).exc = some "ValueError" := by decide
+
 
 /-- With `sasl.required`, a `CAP END` is put on the queue only by a step after which SASL is confirmed. -/
 theorem cap_end_needs_auth (cfg : Cfg) (base s : St) (hr : cfg.required = true) (r : Reach cfg base s) (m : Msg)
@@ -41,7 +66,7 @@ theorem cap_end_needs_auth (cfg : Cfg) (base s : St) (hr : cfg.required = true) 
     unfold ends; rw [List.count_pos_iff]; simp only [List.mem_map]; exact ⟨_, h, rfl⟩
   have hpos : 0 < (step cfg s m).st.endCount := by
     rcases cap_end_counted cfg s m hq with ⟨_, h2⟩ | ⟨_, _, h2⟩ <;> omega
-  exact sasl_required_safe cfg base _ hr (.op (.msg m) r) (.inr (.inr hpos))
+  exact (sasl_required_safe cfg base _ hr (.op (.msg m) r) (.inr (.inr hpos))).1
 
 example : Out.capEnd ∈ (step exReq exR3 ex903).fast := by decide
 
